@@ -62,12 +62,14 @@ use std::{
     future::Future,
     marker::PhantomData,
     ops::{Deref, DerefMut},
-    sync::{
-        atomic::{AtomicUsize, Ordering},
-        Arc, Weak,
-    },
+    sync::{atomic::Ordering, Arc, Weak},
     time::Duration,
 };
+
+#[cfg(deadpool_verif)]
+use crate::verif_sync::AtomicUsize;
+#[cfg(not(deadpool_verif))]
+use std::sync::atomic::AtomicUsize;
 
 #[cfg(all(not(target_arch = "wasm32"), not(deadpool_verif)))]
 use std::time::Instant;
